@@ -41,38 +41,49 @@ Inductive outcome :=
 | ErrUnsupported            (* Err of kind Unsupported that carries no errno *)
 | SyncCall (c : posix_call). (* the result is whatever this synchronous call returns *)
 
-(** [fd.fd()]: the descriptor number *or the direct index* as a plain integer — the fallbacks
-    pass it to libc as a descriptor number whatever the kind (H21). *)
+(** [fd.fd()]: the descriptor number *or the direct index* as a plain integer. Before the repair
+    of H21 the socket fallbacks passed it to libc as a descriptor number whatever the kind; since
+    the repair they only run for regular descriptors ([guard = true]) and a direct descriptor
+    keeps the kernel's error. *)
 Definition raw_fd (fd : N) : fdref := FdNum (Z.of_N fd).
 
-Definition fallback_of (fb : fbclass) (k : kind) (fd : N) (errno : Z) : outcome :=
+Definition is_regular (k : kind) : bool := match k with Regular => true | Direct => false end.
+
+Definition fallback_gen (guard : bool) (fb : fbclass) (k : kind) (fd : N) (errno : Z) : outcome :=
+  let may_call := if guard then is_regular k else true in
   match fb with
   | FbDefault => if errno =? EINVAL then ErrUnsupported else ErrOs errno
   | FbPipe flags =>
       if errno =? EINVAL then SyncCall (PPipe2 (Res RFds) (N.lor flags O_CLOEXEC) NewRegular)
       else ErrOs errno
   | FbSockName peer cap =>
-      if errno =? EOPNOTSUPP
+      if (errno =? EOPNOTSUPP) && may_call
       then SyncCall (PGetsockname (raw_fd fd) peer (out_addr cap) cap)
       else ErrOs errno
   | FbGetSockOpt level name optlen =>
-      if kind_is_unsupported errno
+      if kind_is_unsupported errno && may_call
       then SyncCall (PGetsockopt (raw_fd fd) level name (Res ROptVal) optlen)
       else ErrOs errno
   | FbSetSockOpt level name value =>
-      if kind_is_unsupported errno
+      if kind_is_unsupported errno && may_call
       then SyncCall (PSetsockopt (raw_fd fd) level name value)
       else ErrOs errno
   | FbToDirect => match k with Direct => ErrUnsupported | Regular => ErrOs errno end
   | FbToFd => match k with Regular => ErrUnsupported | Direct => ErrOs errno end
   end.
 
+Definition fallback_of := fallback_gen true.
+(** The code before the repair of H21. *)
+Definition fallback_of_h21 := fallback_gen false.
+
 (** [CompletionResult::check_result] followed by the error arm of [poll_inner]. *)
-Definition decode_result (fb : fbclass) (k : kind) (fd : N) (res : Z) : outcome :=
+Definition decode_result_gen (guard : bool) (fb : fbclass) (k : kind) (fd : N) (res : Z) : outcome :=
   if 0 <=? res then Done (Z.to_N res)
   else let errno := - res in
        if (errno =? EINTR) || (errno =? ECANCELED) then Restart
-       else fallback_of fb k fd errno.
+       else fallback_gen guard fb k fd errno.
+Definition decode_result := decode_result_gen true.
+Definition decode_result_h21 := decode_result_gen false.
 
 (** The operation each fallback class belongs to (for the statement about fallbacks). *)
 Definition op_of_fb (fb : fbclass) : option op :=
